@@ -44,6 +44,30 @@ impl<W: Write> Write for MaybeEncrypted<W> {
 //@use maybeenc_write
 //@use maybeenc_flush
 }
+// ---- what one `write` / `flush` on a MaybeEncrypted does (proved of the real functions in U7a: maybeenc_write / maybeenc_flush)
+pub open spec fn me_write_post<W: Write>(m0: MaybeEncrypted<W>, m1: MaybeEncrypted<W>, buf: Seq<u8>, r: io::Result<usize>) -> bool {
+    &&& (m0 is Unencrypted) == (m1 is Unencrypted)
+    &&& (m0 is Unencrypted ==> {
+            let a = m0->Unencrypted_0; let b = m1->Unencrypted_0;
+            &&& dev_step(&a, &b)
+            &&& (r matches Ok(n) ==> n <= buf.len())
+            &&& (a.g_dev() ==> (r is Err ==> b.g_fault()))
+            &&& (a.g_dev() ==> (r matches Ok(n) ==> (buf.len() > 0 ==> n > 0) && wr_n(&a, &b, true, buf.subrange(0, n as int))))
+        })
+    &&& (m0 is Encrypted ==> r == Ok::<usize, io::Error>(buf.len() as usize)
+            && m1->Encrypted_0.buffer@ == m0->Encrypted_0.buffer@ + buf
+            && m1->Encrypted_0.writer == m0->Encrypted_0.writer && m1->Encrypted_0.keys == m0->Encrypted_0.keys)
+}
+pub open spec fn me_flush_post<W: Write>(m0: MaybeEncrypted<W>, m1: MaybeEncrypted<W>, r: io::Result<()>) -> bool {
+    &&& (m0 is Unencrypted) == (m1 is Unencrypted)
+    &&& (m0 is Unencrypted ==> {
+            let a = m0->Unencrypted_0; let b = m1->Unencrypted_0;
+            &&& dev_step(&a, &b)
+            &&& (a.g_dev() ==> (r is Err ==> b.g_fault()))
+            &&& (a.g_dev() ==> (r is Ok ==> b.g_fault() == a.g_fault() && b.g_pos() == a.g_pos() && b.g_bytes() == a.g_bytes()))
+        })
+    &&& (m0 is Encrypted ==> r is Ok && m1 == m0)
+}
 // ---- GenericZipWriter: which method the installed encoder implements, and the plain-sink shape
 pub open spec fn gzw_method<W: Write + io::Seek>(g: GenericZipWriter<W>) -> Option<CompressionMethod> {
     match g {
@@ -60,6 +84,11 @@ pub open spec fn gzw_plain<W: Write + io::Seek>(g: GenericZipWriter<W>) -> bool 
 pub open spec fn gzw_plain_sink<W: Write + io::Seek>(g: GenericZipWriter<W>) -> W {
     g->Storer_0->Unencrypted_0
 }
+// C11: has the byte sink under this writer ever reported a failure?  (the fault flag of the I/O model is monotone)
+pub open spec fn me_fault<W: Write>(m: MaybeEncrypted<W>) -> bool {
+    match m { MaybeEncrypted::Unencrypted(w) => w.g_fault(), MaybeEncrypted::Encrypted(z) => z.writer.g_fault() }
+}
+pub open spec fn gzw_fault<W: Write + io::Seek>(g: GenericZipWriter<W>) -> bool { !(g is Closed) && me_fault(gzw_sink(g)) }
 // the sink the installed encoder was created over / the level it runs at / the plaintext it has accepted
 pub open spec fn gzw_sink<W: Write + io::Seek>(g: GenericZipWriter<W>) -> MaybeEncrypted<W> {
     match g {
@@ -118,5 +147,63 @@ pub open spec fn effective_level(m: CompressionMethod, level: Option<i32>) -> in
         CompressionMethod::Bzip2 => (match level { Some(l) => l as int, None => 6 }),
         CompressionMethod::Zstd => (match level { Some(l) => l as int, None => 3 }),
         _ => 0,
+    }
+}
+
+// ---- T8 `dyn_write`: the `&mut dyn Write` that GenericZipWriter::ref_mut hands out IS the installed writer.
+// TRUSTED MODEL OF DYNAMIC DISPATCH (the only hand-written executable text in the units): calling write/flush on that
+// trait object calls the variant's own write/flush.  The bodies below are verified against the variants' contracts
+// (MaybeEncrypted: proved in U7a; encoders: shims/encoders.rs), so what callers learn is derived, not restated.
+pub open spec fn gzw_write_post<W: Write + io::Seek>(g0: GenericZipWriter<W>, g1: GenericZipWriter<W>, buf: Seq<u8>, r: io::Result<usize>) -> bool {
+    match g0 {
+        GenericZipWriter::Closed => g1 is Closed && r is Err,
+        GenericZipWriter::Storer(m0) => g1 matches GenericZipWriter::Storer(m1) && me_write_post(m0, m1, buf, r),
+        GenericZipWriter::Deflater(e0) => g1 matches GenericZipWriter::Deflater(e1) && e1.inner() == e0.inner() && e1.g_level() == e0.g_level()
+            && (r matches Ok(n) ==> n <= buf.len() && e1.consumed() == e0.consumed() + buf.subrange(0, n as int)),
+        GenericZipWriter::Bzip2(e0) => g1 matches GenericZipWriter::Bzip2(e1) && e1.inner() == e0.inner() && e1.g_level() == e0.g_level()
+            && (r matches Ok(n) ==> n <= buf.len() && e1.consumed() == e0.consumed() + buf.subrange(0, n as int)),
+        GenericZipWriter::Zstd(e0) => g1 matches GenericZipWriter::Zstd(e1) && e1.inner() == e0.inner() && e1.g_level() == e0.g_level()
+            && (r matches Ok(n) ==> n <= buf.len() && e1.consumed() == e0.consumed() + buf.subrange(0, n as int)),
+    }
+}
+pub open spec fn gzw_flush_post<W: Write + io::Seek>(g0: GenericZipWriter<W>, g1: GenericZipWriter<W>, r: io::Result<()>) -> bool {
+    match g0 {
+        GenericZipWriter::Closed => g1 is Closed && r is Err,
+        GenericZipWriter::Storer(m0) => g1 matches GenericZipWriter::Storer(m1) && me_flush_post(m0, m1, r),
+        GenericZipWriter::Deflater(e0) => g1 matches GenericZipWriter::Deflater(e1) && e1.inner() == e0.inner() && e1.g_level() == e0.g_level() && e1.consumed() == e0.consumed(),
+        GenericZipWriter::Bzip2(e0) => g1 matches GenericZipWriter::Bzip2(e1) && e1.inner() == e0.inner() && e1.g_level() == e0.g_level() && e1.consumed() == e0.consumed(),
+        GenericZipWriter::Zstd(e0) => g1 matches GenericZipWriter::Zstd(e1) && e1.inner() == e0.inner() && e1.g_level() == e0.g_level() && e1.consumed() == e0.consumed(),
+    }
+}
+impl<W: Write + io::Seek> Dev for GenericZipWriter<W> {
+    open spec fn g_dev(&self) -> bool { false }
+    open spec fn g_bytes(&self) -> Seq<u8> { Seq::empty() }
+    open spec fn g_pos(&self) -> int { 0 }
+    open spec fn g_fault(&self) -> bool { false }
+    open spec fn g_ready(&self) -> bool { match self { GenericZipWriter::Storer(m) => m.g_ready(), _ => true } }
+    open spec fn g_inv(&self) -> bool { match self { GenericZipWriter::Storer(m) => m.g_inv(), _ => true } }
+}
+impl<W: Write + io::Seek> Write for GenericZipWriter<W> {
+    fn write(&mut self, buf: &[u8]) -> (r: io::Result<usize>)
+        ensures gzw_write_post(*old(self), *final(self), buf@, r)
+    {
+        match self {
+            GenericZipWriter::Storer(w) => w.write(buf),
+            GenericZipWriter::Deflater(w) => w.write(buf),
+            GenericZipWriter::Bzip2(w) => w.write(buf),
+            GenericZipWriter::Zstd(w) => w.write(buf),
+            GenericZipWriter::Closed => Err(io::Error::new(io::ErrorKind::Other, ())),
+        }
+    }
+    fn flush(&mut self) -> (r: io::Result<()>)
+        ensures gzw_flush_post(*old(self), *final(self), r)
+    {
+        match self {
+            GenericZipWriter::Storer(w) => w.flush(),
+            GenericZipWriter::Deflater(w) => w.flush(),
+            GenericZipWriter::Bzip2(w) => w.flush(),
+            GenericZipWriter::Zstd(w) => w.flush(),
+            GenericZipWriter::Closed => Err(io::Error::new(io::ErrorKind::Other, ())),
+        }
     }
 }
